@@ -97,6 +97,14 @@ func patsArg(pats []string, file string) string {
 	return strings.Join(parts, ",")
 }
 
+type c17Rule struct {
+	file  string
+	types []int
+}
+
+// file names the per-file type rules of luahelper.json may name (substring / regular expression of the path)
+var c17RuleFiles = []string{"main.lua", "m2.lua", "sub/dir/other.lua", "other.lua", "nomatch.lua", "sub/"}
+
 var c17Patterns = []string{"sub/", "sub/dir", "m2.lua", "a.lua", "sub/.*\\.lua", "^/nomatch", "other.lua", "dir", "ma[a-z]n.lua", "x"}
 
 func genFlags(r *lib.Rng) []bool {
@@ -145,7 +153,7 @@ func runC17(res *lib.Result, tier string, seed int64, args []string) error {
 		nUnit, nE2E = 400000, 1500
 	}
 	res.Rule = "unit: random sequences of 1-2 flag vectors + ignore-pattern lists (literal and regex) through the real HandleChangeCheckList/IsIgnoreErrorFile/IsSpecialCheck vs model (fromFlags/isIgnored/isSpecialCheck) and vs S-conf.shown; " +
-		"e2e: real server on a workspace triggering types 1-21 in three files under a random configuration given by initializationOptions, by a later didChangeConfiguration, or by luahelper.json, compared with the documented filter of the all-enabled run; non-trivial = master on and at least one switch off or one pattern; distinct by canonical configuration"
+		"e2e: real server on a workspace triggering types 1-21 in three files under a random configuration given by initializationOptions, by a later didChangeConfiguration, or by luahelper.json (there also with 0-3 per-file type rules IgnoreFileErrTypes), compared with the documented filter of the all-enabled run; non-trivial = master on and at least one switch off or one pattern; distinct by canonical configuration"
 	drv, err := lib.StartDriver()
 	if err != nil {
 		return err
@@ -283,6 +291,7 @@ func runC17(res *lib.Result, tier string, seed int64, args []string) error {
 			res.Dist("e2e.suspect")
 		}
 		var sess *lib.Session
+		var rules []c17Rule
 		jsonPath := filepath.Join(dir, "luahelper.json")
 		os.Remove(jsonPath)
 		switch channel {
@@ -314,9 +323,36 @@ func runC17(res *lib.Result, tier string, seed int64, args []string) error {
 			if fl[0] {
 				show = 1
 			}
-			js := fmt.Sprintf(`{"ShowWarnFlag": %d, "IgnoreErrorTypes": %s, "IgnoreFileErr": %s}`, show, mustJSON(off), mustJSON(pats))
+			// per-file type rules: 0-3 rules naming files of the workspace, each with its own type list
+			if i >= len(suspects) && r.Chance(1, 2) {
+				var tys []int
+				seen := map[int]bool{}
+				for _, d := range baseline {
+					if !seen[d.ty] {
+						seen[d.ty] = true
+						tys = append(tys, d.ty)
+					}
+				}
+				sort.Ints(tys)
+				for k := 1 + r.Intn(3); k > 0; k-- {
+					rule := c17Rule{file: c17RuleFiles[r.Intn(len(c17RuleFiles))]}
+					for n := 1 + r.Intn(3); n > 0; n-- {
+						rule.types = append(rule.types, tys[r.Intn(len(tys))])
+					}
+					rules = append(rules, rule)
+				}
+			}
+			rulesJSON := ""
+			if len(rules) > 0 {
+				var rs []string
+				for _, ru := range rules {
+					rs = append(rs, fmt.Sprintf(`{"File": %s, "Types": %s}`, mustJSON(ru.file), mustJSON(ru.types)))
+				}
+				rulesJSON = `, "IgnoreFileErrTypes": [` + strings.Join(rs, ", ") + `]`
+			}
+			js := fmt.Sprintf(`{"ShowWarnFlag": %d, "IgnoreErrorTypes": %s, "IgnoreFileErr": %s%s}`, show, mustJSON(off), mustJSON(pats), rulesJSON)
 			if len(off) == 0 {
-				js = fmt.Sprintf(`{"ShowWarnFlag": %d, "IgnoreFileErr": %s}`, show, mustJSON(pats))
+				js = fmt.Sprintf(`{"ShowWarnFlag": %d, "IgnoreFileErr": %s%s}`, show, mustJSON(pats), rulesJSON)
 			}
 			ioutil.WriteFile(jsonPath, []byte(js), 0o644)
 			sess, err = lib.StartSession(dir, optsFromFlags(allOn, nil))
@@ -329,7 +365,7 @@ func runC17(res *lib.Result, tier string, seed int64, args []string) error {
 		sess.Close()
 		os.Remove(jsonPath)
 		// expected: documented filter of the baseline (decision per (file,type) from the driver's spec answer)
-		caseText := fmt.Sprintf("channel=%d flags=%s pats=%v", channel, flagBits(fl), pats)
+		caseText := fmt.Sprintf("channel=%d flags=%s pats=%v rules=%v", channel, flagBits(fl), pats, rules)
 		expect := map[string]bool{}
 		specialOff := false
 		for _, d := range baseline {
@@ -338,6 +374,30 @@ func runC17(res *lib.Result, tier string, seed int64, args []string) error {
 				return err
 			}
 			specialOff = so
+			if shown && len(rules) > 0 {
+				// silenced by a per-file type rule (Lean: Conf.fromJson + isIgnored)?
+				var parts []string
+				for _, ru := range rules {
+					m := "0"
+					if re, err := regexp.Compile(ru.file); err == nil && re.MatchString(filepath.Join(dir, d.file)) {
+						m = "1"
+					}
+					var ts []string
+					for _, t := range ru.types {
+						ts = append(ts, fmt.Sprint(t))
+					}
+					parts = append(parts, lib.Hex([]byte(ru.file))+":"+m+"="+strings.Join(ts, "."))
+				}
+				ans, err := drv.Ask(fmt.Sprintf("confrules %s %s %d", strings.Join(parts, ";"), lib.Hex([]byte(filepath.Join(dir, d.file))), d.ty))
+				if err != nil {
+					return err
+				}
+				if ans == "R ign=1" {
+					shown = false
+				} else if ans != "R ign=0" {
+					return fmt.Errorf("bad driver answer %q to confrules", ans)
+				}
+			}
 			if shown {
 				expect[d.key] = true
 			}
